@@ -304,7 +304,12 @@ func c01Gen(r *rand.Rand, tier string) []spec.Case {
 		{"proto", c01Proto, func(f *c01Fields, v string) { f.proto = v }},
 		{"cert", c01CertPool(), func(f *c01Fields, v string) { f.cert = v }},
 		{"mux", c01Mux, func(f *c01Fields, v string) { f.mux = v }},
-		{"extra", []string{"x", "", "true|more"}, func(f *c01Fields, v string) { f.extra = v; if f.mux == "\x00absent" { f.mux = "true" } }},
+		{"extra", []string{"x", "", "true|more"}, func(f *c01Fields, v string) {
+			f.extra = v
+			if f.mux == "\x00absent" {
+				f.mux = "true"
+			}
+		}},
 	}
 	reps := 3
 	if tier == "thorough" {
@@ -358,7 +363,7 @@ func c01Gen(r *rand.Rand, tier string) []spec.Case {
 	// 5. random combinations of pool values
 	nrand := 500
 	if tier == "thorough" {
-		nrand = 20000
+		nrand = 80000
 	}
 	for i := 0; i < nrand; i++ {
 		p := c01RandCfg(r)
@@ -374,7 +379,7 @@ func c01Gen(r *rand.Rand, tier string) []spec.Case {
 	// 6. byte-level mutations of valid lines
 	nmut := 200
 	if tier == "thorough" {
-		nmut = 8000
+		nmut = 30000
 	}
 	for i := 0; i < nmut; i++ {
 		p := c01RandCfg(r)
